@@ -49,7 +49,7 @@ def explore(history, depth, results_fd, only=None):
             code = 0
             try:
                 text = run_op(name)
-                rec = dict(history=history, op=name, digest=digest(text), head=text[:0])
+                rec = dict(history=history, op=name, digest=digest(text), head=text[:0], raised=text.startswith(("EXC:", "EXIT:")))
                 if os.environ.get("C10_KEEP_TEXT"):
                     rec["text"] = text
                 os.write(results_fd, (json.dumps(rec) + "\n").encode())
